@@ -8,7 +8,7 @@ M = [
  ("c01_unwrap_key", X+'unicode.rs', "let key = TinyStr4::from_bytes(key).map_err(|_| ParserError::InvalidSubtag)?;\n    Ok(key.to_ascii_lowercase())\n}\n\nconst TRUE_TYPE", "let key = TinyStr4::from_bytes(key).unwrap();\n    Ok(key.to_ascii_lowercase())\n}\n\nconst TRUE_TYPE"),
  ("c01_unwrap_private", X+'private.rs', "let s = TinyStr8::from_bytes(t).map_err(|_| ParserError::InvalidSubtag)?;", "let s = TinyStr8::from_bytes(t).unwrap();"),
  ("c02_lang_len4", L+'subtags/language.rs', "if !(2..=8).contains(&slen) || slen == 4 || !s.is_ascii_alphabetic() {", "if !(2..=8).contains(&slen) || !s.is_ascii_alphabetic() {"),
- ("c02_script_after_region", L+'parser/mod.rs', None, None),
+
  ("c02_no_dedup", L+'parser/mod.rs', "        variants.dedup();\n", ""),
  ("c03_repeat_u", X+'mod.rs', "                    if seen_unicode {\n                        return Err(ParserError::InvalidExtension);\n                    }\n", ""),
  ("c03_multichar_singleton", X+'mod.rs', "            if subtag.len() > 1 {\n                // A singleton is exactly one character long.\n                return Err(ParserError::InvalidExtension);\n            }\n", ""),
@@ -16,19 +16,20 @@ M = [
  ("c04_set_variants_nosort", L+'lib.rs', "            v.sort_unstable();\n            v.dedup();\n            self.variants = Some(v.into_boxed_slice());", "            v.dedup();\n            self.variants = Some(v.into_boxed_slice());"),
  ("c05_tfield_eats_singleton", X+'transform.rs', "            } else if slen == 1 {\n                // The next singleton ends the transform extension.\n                break;\n", ""),
  ("c07_or_else_swapped", L+'likelysubtags/mod.rs', "    let region = region.or_else(|| input.2.map(|r| subtags::Region::from_raw_unchecked(r)));", "    let region = input.2.map(|r| subtags::Region::from_raw_unchecked(r)).or(region);"),
- ("c06_script_before_region", L+'likelysubtags/mod.rs', None, None),
+ ("c06_lang_only_before_pairs", L+'likelysubtags/mod.rs', "    if let Some(l) = Into::<Option<u64>>::into(lang) {\n        if let Some(r) = region {", "    if let Some(l) = Into::<Option<u64>>::into(lang) {\n        if let (Some(_), None, Ok(i)) = (region, script, tables::LANG_ONLY.binary_search_by_key(&(&l), |(key_l, _)| key_l)) {\n            if l > 0xffff {\n                return unsafe { lang_from_parts(tables::LANG_ONLY[i].1, None, script, region) };\n            }\n        }\n        if let Some(r) = region {"),
  ("c06_early_return_or", L+'likelysubtags/mod.rs', "    if !lang.is_empty() && script.is_some() && region.is_some() {\n        return None;\n    }\n\n    if let Some(l)", "    if !lang.is_empty() && (script.is_some() || region.is_some()) {\n        return None;\n    }\n\n    if let Some(l)"),
  ("c08_no_equality_test", L+'likelysubtags/mod.rs', "    if max_langid.2.is_some() {\n        if let Some(trial) = maximize(max_langid.0, None, max_langid.2) {\n            if trial == max_langid {", "    if max_langid.2.is_some() {\n        if let Some(trial) = maximize(max_langid.0, None, max_langid.2) {\n            if trial.0 == max_langid.0 && trial.2 == max_langid.2 {"),
- ("c08_script_trial_first", L+'likelysubtags/mod.rs', None, None),
- ("c14_rtl_before_script", L+'lib.rs', None, None),
- ("c14_move_script", L+'layout_table.rs', "    [1650553409, 1734897490, 1835820097, 1869572942];", "    [1650553409, 1734897490, 1835820097, 1869572942, 1819441475];"),
- ("c18_swap_rows", L+'likelysubtags/tables.rs', None, None),
+ ("c08_region_trial_keeps_script", L+'likelysubtags/mod.rs', "                return Some((max_langid.0, None, max_langid.2));", "                return Some((max_langid.0, script, max_langid.2));"),
+ ("c14_ttb_ignored_with_region", L+'lib.rs', "            (_, Some(script))\n                if layout_table::SCRIPTS_CHARACTER_DIRECTION_TTB.contains(&script.into()) =>", "            (_, Some(script))\n                if self.region.is_none() && layout_table::SCRIPTS_CHARACTER_DIRECTION_TTB.contains(&script.into()) =>"),
+ ("c14_swap_script_tables", L+'layout_table.rs', "    [1650553409, 1734897490, 1835820097, 1869572942];", "    [1650553409, 1734897490, 1835820097, 1869572943];"),
+ ("c18_swap_rows", L+'likelysubtags/tables.rs', "    (25703, (Some(25703), Some(1853120844), Some(16967))),\n    (25705, (Some(25705), Some(1853120844), Some(17481))),\n", "    (25705, (Some(25705), Some(1853120844), Some(17481))),\n    (25703, (Some(25703), Some(1853120844), Some(16967))),\n"),
+ ("c18_digit_changed", L+'likelysubtags/tables.rs', "    (25966, (Some(25966), Some(1635149124), Some(20558))),", "    (25966, (Some(25966), Some(1635149124), Some(20559))),"),
  ("c09_attr_no_lowercase", X+'unicode.rs', "    Ok(s.to_ascii_lowercase())\n}\n\nfn is_type", "    Ok(s)\n}\n\nfn is_type"),
  ("c09_attr_no_sort", X+'unicode.rs', "        uext.attributes.sort_unstable();\n", ""),
  ("c10_set_attr_push", X+'unicode.rs', "        if let Err(idx) = self.attributes.binary_search(&attribute) {\n            self.attributes.insert(idx, attribute);\n        }", "        if !self.attributes.contains(&attribute) {\n            self.attributes.push(attribute);\n        }"),
  ("c10_add_tag_nosort", X+'private.rs', "        self.0.push(parse_value(tag.as_ref())?);\n        self.0.sort_unstable();", "        self.0.push(parse_value(tag.as_ref())?);"),
  ("c10_set_keyword_insert_first", X+'unicode.rs', "        let key = parse_key(key.as_ref())?;\n\n        let t = value", "        let key = parse_key(key.as_ref())?;\n        self.keywords.insert(key, vec![]);\n\n        let t = value"),
- ("c11_or_region_variants", L+'lib.rs', "            && subtag_matches(&self.region, &other.region, self_as_range, other_as_range)\n            && subtags_match(", "            && (subtag_matches(&self.region, &other.region, self_as_range, other_as_range)\n            || subtags_match("),
+ ("c11_or_region_variants", L+'lib.rs', "            && subtag_matches(&self.region, &other.region, self_as_range, other_as_range)\n            && subtags_match(\n                &self.variants,\n                &other.variants,\n                self_as_range,\n                other_as_range,\n            )", "            && (subtag_matches(&self.region, &other.region, self_as_range, other_as_range)\n            || subtags_match(\n                &self.variants,\n                &other.variants,\n                self_as_range,\n                other_as_range,\n            ))"),
  ("c11_locale_ignores_private", LO+'lib.rs', "        if !self.extensions.private.is_empty() || !other.extensions.private.is_empty() {\n            return false;\n        }\n", ""),
  ("c12_empty_variants_some", L+'lib.rs', "        if v.is_empty() {\n            self.variants = None;\n        } else {", "        if false {\n            self.variants = None;\n        } else {"),
  ("c12_eq_str_case_insensitive", L+'lib.rs', "        self.to_string().as_str() == *other", "        self.to_string().eq_ignore_ascii_case(other)"),
